@@ -33,6 +33,7 @@ import (
 	"strconv"
 	"strings"
 	"sync"
+	"unicode/utf8"
 	_ "unsafe"
 
 	"github.com/onflow/cadence"
@@ -1029,7 +1030,7 @@ func (g *argsGen) emitArg(c *hx.Ctx, ty string, v cadence.Value) {
 			b = []byte(strings.Replace(string(b), `"type"`, `"typ"`, 1))
 		}
 	}
-	if strings.ContainsAny(string(b), "\t\n\r") {
+	if strings.ContainsAny(string(b), "\t\n\r") || !utf8.Valid(b) {
 		return
 	}
 	eng := []string{"interp", "vm"}[g.r.Intn(2)]
